@@ -25,6 +25,8 @@ def body_of(src, what):
     m = re.search(r"^fn print_minidump_dump<", src, re.M)
     if not m:
         die("%s: fn print_minidump_dump not found" % what)
+    if len(re.findall(r"\bfn print_minidump_dump\b", src)) != 1 or (what == "main.rs" and len(re.findall(r"\bprint_minidump_dump\(", src)) != 1):
+        die("%s: print_minidump_dump is defined or called more than once" % what)
     end = src.find("\n}\n", m.start())
     if end < 0:
         die("%s: end of print_minidump_dump not found" % what)
@@ -68,6 +70,64 @@ def sequence(body, what):
     return seq
 
 
+def program(body):
+    """the statements of print_minidump_dump (main.rs) as a PROGRAM over the vocabulary of coq/C20/DumpSpec.v: every statement
+    of the function body must be one of the seven shapes below; whatever is left over after the recognised statements are cut
+    out must be exactly the scaffolding this translator knows (signature, comments, the streams! macro, print_raw_stream,
+    the loop head, `Ok(())`) - anything else aborts"""
+    what = "main.rs"
+    m = re.search(r"\{\n", body)
+    text = body[m.end():]
+    text = re.sub(r"//[^\n]*", "", text)
+    steps, spans = [], []
+
+    def take(rx, mk, flags=re.S):
+        for mm in re.finditer(rx, text, flags):
+            steps.append((mm.start(), mk(mm)))
+            spans.append((mm.start(), mm.end()))
+    ty = r"(\w+)(?:<'_>)?"
+    take(r"\bdump\.print\(output\)\?;", lambda mm: "SHeader")
+    take(r"\blet\s+(?:mut\s+)?(\w+)\s*=\s*dump\.get_stream::<" + ty + r">\(\)\.ok\(\);", lambda mm: 'SLoad "%s" "%s"' % (mm.group(1), mm.group(2)))
+    take(r"\blet\s+(\w+)\s*=\s*(\w+)\s*\.take\(\)\s*\.map\(UnifiedMemoryList::Memory64\)\s*\.or_else\(\|\|\s*(\w+)\.take\(\)\.map\(UnifiedMemoryList::Memory\)\);",
+         lambda mm: 'SUnify "%s" "%s" "%s"' % (mm.group(1), mm.group(2), mm.group(3)))
+    take(r"\bif let Ok\((\w+)\) = dump\.get_stream::<" + ty + r">\(\) \{\s*(\w+)\s*\.print\(([^;]*?)\)\?;\s*\}",
+         lambda mm: ('SPrintGet "%s"' % mm.group(2)) if mm.group(1) == mm.group(3) else die("printer called on %s, bound %s" % (mm.group(3), mm.group(1))))
+    take(r"\bif let Some\((\w+)\) = (\w+) \{\s*(\w+)\s*\.print\(([^;]*?)\)\?;\s*\}",
+         lambda mm: ('SPrintVar "%s"' % mm.group(2)) if mm.group(1) == mm.group(3) else die("printer called on %s, bound %s" % (mm.group(3), mm.group(1))))
+    take(r"\bmatch dump\.get_stream::<" + ty + r">\(\) \{\s*Ok\((\w+)\) => (\w+)\.print\(output\)\?,\s*Err\(Error::StreamNotFound\) => \(\),\s*"
+         r"Err\(_\) => write!\(output, \"([^\"{}]*)\"\)\?,\s*\}",
+         lambda mm: ('SPrintGetOrLit "%s" "%s"' % (mm.group(1), mm.group(4))) if mm.group(2) == mm.group(3) else die("crashpad arm prints another binding"))
+    loop = re.search(r"for &\(stream, name\) in streams!\(([^)]*)\) \{\s*if let Ok\(contents\) = dump\.get_raw_stream\(stream as u32\) \{\s*"
+                     r"print_raw_stream\(name, contents, output\)\?;\s*\}\s*\}", text, re.S)
+    if not loop:
+        die("%s: the raw stream loop has an unrecognised shape" % what)
+    for i, nm in enumerate(x.strip() for x in loop.group(1).split(",") if x.strip()):
+        steps.append((loop.start() + i * 1e-3, 'SRaw "%s"' % nm))
+    spans.append((loop.start(), loop.end()))
+    # what is left over
+    spans.sort()
+    rest, pos = [], 0
+    for a, b in spans:
+        if a < pos:
+            die("%s: overlapping statements at offset %d" % (what, a))
+        rest.append(text[pos:a])
+        pos = b
+    rest.append(text[pos:])
+    residue = re.sub(r"\s+", "", "".join(rest))
+    expected = re.sub(r"\s+", "", r"""
+        macro_rules! streams { ( $( $x:ident ),* ) => { &[$( ( minidump_common::format::MINIDUMP_STREAM_TYPE::$x, stringify!($x) ) ),*] }; }
+        fn print_raw_stream<T: Write>(name: &str, contents: &[u8], out: &mut T) -> std::io::Result<()> {
+            writeln!(out, "Stream {name}:")?;
+            let s = contents.split(|&v| v == 0).map(String::from_utf8_lossy).collect::<Vec<_>>().join("\\0\n");
+            write!(out, "{s}\n\n")
+        }
+        Ok(())""")
+    if residue != expected:
+        k = next((i for i in range(min(len(residue), len(expected))) if residue[i] != expected[i]), min(len(residue), len(expected)))
+        die("%s: print_minidump_dump contains a statement this translator does not recognise, near: %r" % (what, residue[max(0, k - 30):k + 90]))
+    return [s2 for _p, s2 in sorted(steps)]
+
+
 def main():
     repo, outdir = sys.argv[1], sys.argv[2]
     root = os.path.dirname(os.path.dirname(os.path.abspath(__file__)))
@@ -83,15 +143,20 @@ def main():
     out = "(* generated by translate/c20_dump_sequence.py from minidump-stackwalk/src/main.rs — do not edit *)\n" \
           "From Coq Require Import String List.\nImport ListNotations.\nLocal Open Scope string_scope.\n" \
           "Definition DUMP_SEQ : list string := [\n  " + ";\n  ".join('"%s"' % s for s in a) + "\n].\n"
-    path = os.path.join(outdir, "C20DumpSeq.v")
+    prog = program(body_of(open(os.path.join(repo, "minidump-stackwalk", "src", "main.rs")).read(), "main.rs"))
+    out2 = "(* generated by translate/c20_dump_sequence.py from print_minidump_dump of minidump-stackwalk/src/main.rs — do not edit *)\n" \
+           "From Coq Require Import List.\nImport ListNotations.\nFrom RM Require Import C20.ClapSpec C20.DumpSpec.\n" \
+           "Local Open Scope str_scope.\nDefinition DUMP_PROG : list dstep := [\n  " + ";\n  ".join(prog) + "\n].\n"
     os.makedirs(outdir, exist_ok=True)
-    try:
-        if open(path).read() == out:
-            return
-    except OSError:
-        pass
-    with open(path, "w") as f:
-        f.write(out)
+    for name, content in (("C20DumpSeq.v", out), ("C20DumpProg.v", out2)):
+        path = os.path.join(outdir, name)
+        try:
+            if open(path).read() == content:
+                continue
+        except OSError:
+            pass
+        with open(path, "w") as f:
+            f.write(content)
 
 
 main()
